@@ -234,6 +234,60 @@ func rbTLVBody(sc rbScenario, setup *ref.SetupClient, vc *ref.VerifyClient, rng 
 			t.Add(ref.TagEncrypted, rnd(16+rng.Intn(100)))
 		}
 		return t.Encode()
+	case "inner_damaged":
+		// the outer message is correct (right key, right nonce): the damage is inside the box
+		rs := func(n int) []byte { return rnd(n) }
+		switch {
+		case sc.Ep == "pair-setup" && sc.St == "afterM4" && setup != nil:
+			inner := ref.SubTLV5(setup.SRP.K, setup.ID)
+			var t ref.TLV
+			switch v % 10 {
+			case 0: // no public key
+				t = ref.TLV{inner[0], inner[2]}
+			case 1:
+				t = ref.TLV{inner[0], {Tag: ref.TagPublicKey, Val: rs(31)}, inner[2]}
+			case 2:
+				t = ref.TLV{inner[0], {Tag: ref.TagPublicKey, Val: rs(33)}, inner[2]}
+			case 3:
+				t = ref.TLV{inner[0], {Tag: ref.TagPublicKey, Val: []byte{}}, inner[2]}
+			case 4: // no signature
+				t = ref.TLV{inner[0], inner[1]}
+			case 5:
+				t = ref.TLV{inner[0], inner[1], {Tag: ref.TagSignature, Val: rs(63)}}
+			case 6: // no identifier
+				t = ref.TLV{inner[1], inner[2]}
+			case 7:
+				t = ref.TLV{{Tag: ref.TagIdentifier, Val: rs(300)}, inner[1], inner[2]}
+			case 8:
+				return ref.WrapM5(setup.EncKey[:], rs(1+rng.Intn(40))).Encode()
+			default:
+				t = ref.TLV{}
+			}
+			return ref.WrapM5(setup.EncKey[:], t.Encode()).Encode()
+		case sc.Ep == "pair-verify" && sc.St == "afterV2" && vc != nil:
+			inner := ref.SubTLV3(vc.ID, vc.Eph.Pub[:], vc.AccPub)
+			var t ref.TLV
+			switch v % 8 {
+			case 0:
+				t = ref.TLV{inner[0]}
+			case 1:
+				t = ref.TLV{inner[1]}
+			case 2:
+				t = ref.TLV{inner[0], {Tag: ref.TagSignature, Val: rs(63)}}
+			case 3:
+				t = ref.TLV{inner[0], {Tag: ref.TagSignature, Val: rs(65)}}
+			case 4:
+				t = ref.TLV{{Tag: ref.TagIdentifier, Val: []byte{}}, inner[1]}
+			case 5:
+				t = ref.TLV{{Tag: ref.TagIdentifier, Val: rs(400)}, inner[1]}
+			case 6:
+				return ref.WrapV3(vc.EncKey[:], rs(1+rng.Intn(40))).Encode()
+			default:
+				t = ref.TLV{}
+			}
+			return ref.WrapV3(vc.EncKey[:], t.Encode()).Encode()
+		}
+		return rnd(20)
 	case "empty_body":
 		return []byte{}
 	case "unknown_method":
@@ -283,7 +337,8 @@ func (w *rbWorld) rbJSONRequest(sc rbScenario, rng *rand.Rand, v int) (method, p
 		if sc.Ep == "resource" {
 			body = [][]byte{[]byte(`{"resource-type":5,"image-width":"x","image-height":[]}`), []byte(`{"resource-type":"image","image-width":-5,"image-height":-1}`), []byte(`[1,2,3]`), []byte(`"image"`)}[v%4]
 		} else {
-			body = [][]byte{[]byte(`{"characteristics":"x"}`), item(`{"aid":"a","iid":[]}`), item(`{"aid":1,"iid":` + fmt.Sprint(iid) + `,"ev":"yes","value":{"x":[true,null]}}`), []byte(`{"characteristics":[null,5,"x"]}`), []byte(`null`)}[v%5]
+			body = [][]byte{[]byte(`{"characteristics":"x"}`), item(`{"aid":"a","iid":[]}`), item(`{"aid":1,"iid":` + fmt.Sprint(iid) + `,"ev":"yes","value":{"x":[true,null]}}`), []byte(`{"characteristics":[null,5,"x"]}`), []byte(`null`),
+				[]byte(`{"characteristics":[null]}`), item(`null`), []byte(`{"characteristics":[[]]}`), []byte(`{"characteristics":null}`), item(fmt.Sprintf(`{"aid":1,"iid":%d,"value":null,"ev":null}`, iid))}[v%10]
 		}
 	case "huge_number":
 		if sc.Ep == "resource" {
@@ -475,9 +530,9 @@ func robustFamily(a *Args) error {
 	if err != nil {
 		return err
 	}
-	variants := 3
+	variants := 10 // every fixed shape of every class
 	if a.Tier == "thorough" {
-		variants = 30
+		variants = 40
 	}
 	if a.N > 0 {
 		variants = a.N
